@@ -73,3 +73,43 @@ extern "C" void h_interp_contain() {
   VF_ASSERT(yz[1] >= zlo && yz[1] <= zhi);
   VF_END();
 }
+
+// C02.b: an edge is named by either of its two paired halfedges; the
+// perturbed vertex/edge predicate Shadow01 must give the same answer for both
+// names (its tie-break direction is a property of the EDGE: the sum of the two
+// adjacent face normals).  All operands symbolic, including exact ties.
+template <bool expandP, bool forward>
+static void s01sym() {
+  Manifold::Impl a, b;
+  a.vertPos_.resize(1, vec3(0.0));
+  a.vertNormal_.resize(1, vec3(0.0));
+  a.vertPos_[0] = V();
+  a.vertNormal_[0] = V();
+  b.vertPos_.resize(2, vec3(0.0));
+  b.vertNormal_.resize(2, vec3(0.0));
+  for (int i = 0; i < 2; i++) {
+    b.vertPos_[i] = V();
+    b.vertNormal_[i] = V();
+  }
+  b.faceNormal_.resize(2, vec3(0.0));
+  b.faceNormal_[0] = V();
+  b.faceNormal_[1] = V();
+  b.halfedge_.resize(6);
+  // halfedge 0 (face 0) runs 0 -> 1, its pair is halfedge 3 (face 1) running 1 -> 0
+  b.halfedge_.Set(0, 0, 3, 0);
+  b.halfedge_.Set(1, 1, -1, 1);
+  b.halfedge_.Set(2, -1, -1, -1);
+  b.halfedge_.Set(3, 1, 0, 1);
+  b.halfedge_.Set(4, 0, -1, 0);
+  b.halfedge_.Set(5, -1, -1, -1);
+  const auto r0 = Shadow01<expandP, forward>(0, 0, 0, 1, a, b);
+  const auto r1 = Shadow01<expandP, forward>(0, 3, 0, 1, a, b);
+  VF_ASSERT(r0.first == r1.first);
+  VF_ASSERT(r0.first >= -1 && r0.first <= 1);
+  if (r0.first != 0) VF_ASSERT(r0.second[0] == r1.second[0] && r0.second[1] == r1.second[1]);
+  VF_END();
+}
+extern "C" void h_s01sym_tt() { s01sym<true, true>(); }
+extern "C" void h_s01sym_tf() { s01sym<true, false>(); }
+extern "C" void h_s01sym_ft() { s01sym<false, true>(); }
+extern "C" void h_s01sym_ff() { s01sym<false, false>(); }
